@@ -31,7 +31,7 @@ int gh_cmp(const void *n1, size_t s1, const void *n2, size_t s2) {
 
 struct pre {
     bool present[NN]; uchar key[NN]; bool red[NN]; size_t dsz[NN]; uchar dat[NN][VSZ];
-    size_t ksz[NN]; uchar key2[NN];        /* key length (1 or 2 bytes, symbolic per node) and second key byte */
+    size_t ksz[NN]; uchar key2[NN];        /* key length (1 or 2 bytes) and second key byte */
     qtreetbl_obj_t *node[NN];
 };
 struct tstate { qtreetbl_t *t; struct pre p; size_t n; int depth0; };
@@ -131,7 +131,7 @@ static struct tstate mk(bool valid_only) {
 #if defined(SHAPE) && defined(KEYS_CANON)
             const bool longkey = ((key >> 1) & 1) != 0;    /* canonical keys: lengths alternate in key order, so every key differs in length from its in-order neighbours */
 #else
-            QV_IN(bool, longkey);                      /* every combination of key lengths occurs */
+            const bool longkey = (i & 1) != 0;         /* symbolic keys: lengths alternate over the layout (left children long), concrete so that the name objects keep concrete addresses */
 #endif
             size_t ksz = longkey ? 2 : 1;
             QV_IN(uchar, k2);
